@@ -124,7 +124,7 @@ ParCSRMatrix* ParCSRMatrix::add(ParCSRMatrix* B)
         for (std::vector<int>::iterator it = C->off_proc->idx2.begin() + off_nnz;
                 it != C->off_proc->idx2.begin() + off_nnz + (end - start); ++it)
         {
-            *it = off_proc_to_new[*it];
+            *it = B_off_proc_to_new[*it];
         }
         off_nnz += (end - start);
 
@@ -160,7 +160,11 @@ ParCSRMatrix* ParCSRMatrix::add(ParCSRMatrix* B)
         for (int i = 0; i < C->off_proc_num_cols; i++)
         {
             if (new_col[i])
+            {
+                // keep the global index of every column that survives
+                C->off_proc_column_map[ctr] = C->off_proc_column_map[i];
                 new_col[i] = ctr++;
+            }
             else 
                 new_col[i] = -1;
         }
@@ -288,7 +292,11 @@ ParCSRMatrix* ParCSRMatrix::subtract(ParCSRMatrix* B)
         for (int i = 0; i < C->off_proc_num_cols; i++)
         {
             if (new_col[i])
+            {
+                // keep the global index of every column that survives
+                C->off_proc_column_map[ctr] = C->off_proc_column_map[i];
                 new_col[i] = ctr++;
+            }
             else 
                 new_col[i] = -1;
         }
